@@ -30,7 +30,7 @@ import (
 //     mouse / paste / focus registers must be exactly what the application last requested (resume-missing:<mode>,
 //     resume-extra:<mode>);
 //   * the raw call log of the FakeTty must follow the Tty contract (tty-order:<rule>);
-//   * a call that does not return within 5 s is class hang:<op> (after 3 hangs the rest of the run is skipped), a panic is class panic:<op>.
+//   * a call that does not return within 5 s is class hang:<op> (after 10 hangs the rest of the run is skipped), a panic is class panic:<op>.
 
 const modesInitialTitle = "shell" // what the user's terminal shows before the application starts
 
@@ -46,7 +46,7 @@ type modesShadow struct {
 // run are skipped instead of each paying the watchdog.
 var modesHangs int
 
-const modesMaxHangs = 3
+const modesMaxHangs = 10
 
 // guard runs one API call with a watchdog; a panic or a hang becomes a finding instead of taking the run down.
 func guard(res *h.Result, name string, f func()) bool {
